@@ -2697,7 +2697,7 @@ func applySigfigToRes(fltVal float64, sigfigs int) float64 {
 	if totalResLen < sigfigs {
 		return fltVal
 	}
-	if strArr[0] == "0" {
+	if strArr[0] == "0" && len(strArr) > 1 {
 		offset := 0
 		for _, char := range strArr[1] {
 			if char != '0' {
